@@ -81,11 +81,25 @@ func (f *frame) call(res ssa.Value, c *ssa.CallCommon, ins ssa.Instruction) {
 // after every call and then assumed, so that the final frame obligation needs one step instead of the whole chain.
 func (f *frame) stepFrames(pos token.Pos) {
 	ct := f.contract
-	if !f.top || ct == nil || !ct.StepFrames || !ct.HasMod || f.R == "false" {
+	if !f.top || ct == nil || !ct.StepFrames || f.R == "false" {
 		return
 	}
 	vc := f.vc
 	eng := vc.eng
+	if hs := vc.freshOnlyHeaps(ct); len(hs) > 0 {
+		ap := vc.lookup(f.entry, "alloc", allocSort)
+		for _, h := range hs {
+			srt, _ := vc.sortForHeap(h)
+			hp := vc.lookup(f.entry, h, srt)
+			hq := vc.lookup(f.st, h, srt)
+			if hp != hq {
+				f.oblige("framestep", "freshonly:"+h, nil, freshOnlyFormula(ap, hp, hq), pos)
+			}
+		}
+	}
+	if !ct.HasMod {
+		return
+	}
 	eff := eng.contractEffects(ct, f.fn, f.fn.Signature)
 	if eff["*"] {
 		return
@@ -346,6 +360,9 @@ func (f *frame) applyContract(ct *Contract, fn *ssa.Function, sig *types.Signatu
 			ps = cl.Props
 		}
 		f.oblige("pre", display+"."+cl.Label, ps, c, pos)
+		if cl.ExplicitProps {
+			f.vc.obls[len(f.vc.obls)-1].PropsOnly = true
+		}
 	}
 	// frame
 	eff := eng.contractEffects(ct, fn, sig)
@@ -356,6 +373,7 @@ func (f *frame) applyContract(ct *Contract, fn *ssa.Function, sig *types.Signatu
 	f.havocTo(pre, eff)
 	post := f.st
 	f.frameFormulas(ct, env, pre, post, eff)
+	f.assumeFreshOnlyClause(ct, pre, post)
 	if !ct.HasMod && !eff["*"] {
 		if nf := eng.contractNonFresh(ct, fn, sig); !nf["*"] {
 			f.assumeFreshOnly(pre, post, eff, nf)
@@ -996,5 +1014,58 @@ func (f *frame) atCallAssertionsIface(callee string, c *ssa.CallCommon, args []V
 	f.atCallSeen[callee]++
 	for _, cl := range f.contract.AtCalls[callee] {
 		f.oblige("atcall", callee+"."+cl.Label, cl.Props, env.trBool(cl.Expr), pos)
+	}
+}
+
+// freshOnlyHeaps expands the freshonly clause of a contract to the heaps known so far.
+func (vc *VC) freshOnlyHeaps(ct *Contract) []string {
+	if ct == nil || len(ct.FreshOnly) == 0 {
+		return nil
+	}
+	seen := map[string]bool{}
+	var out []string
+	add := func(h string) {
+		if !seen[h] {
+			if srt, ok := vc.sortForHeap(h); ok && strings.HasPrefix(srt, "(Array Int") {
+				seen[h] = true
+				out = append(out, h)
+			}
+		}
+	}
+	for _, pat := range ct.FreshOnly {
+		if strings.HasSuffix(pat, "*") {
+			tmp := map[string]bool{pat: true}
+			vc.eng.expandHeapPattern(pat, tmp)
+			for h := range tmp {
+				add(h)
+			}
+		} else {
+			add(pat)
+		}
+	}
+	sort.Strings(out)
+	return out
+}
+
+func freshOnlyFormula(allocPre, hPre, hPost string) string {
+	return fmt.Sprintf("(forall ((r Int)) (! (=> (select %s (root r)) (= (select %s r) (select %s r))) :pattern ((select %s r))))", allocPre, hPost, hPre, hPost)
+}
+
+// assumeFreshOnlyClause: at a call site, the heaps of the callee's freshonly clause are unchanged at every object
+// allocated before the call (whatever the modifies clause, or its absence, havocked).
+func (f *frame) assumeFreshOnlyClause(ct *Contract, pre, post *hstate) {
+	vc := f.vc
+	hs := vc.freshOnlyHeaps(ct)
+	if len(hs) == 0 {
+		return
+	}
+	ap := vc.lookup(pre, "alloc", allocSort)
+	for _, h := range hs {
+		srt, _ := vc.sortForHeap(h)
+		hp := vc.lookup(pre, h, srt)
+		hq := vc.lookup(post, h, srt)
+		if hp != hq {
+			f.assume(freshOnlyFormula(ap, hp, hq))
+		}
 	}
 }
